@@ -9,7 +9,7 @@ VERIF = os.path.dirname(os.path.dirname(os.path.abspath(__file__)))
 def main():
     print('| seed | breaks | change (one line) | needs to manifest | caught by |')
     print('|---|---|---|---|---|')
-    for d in sorted(glob.glob(os.path.join(VERIF, 'seeded', '*'))):
+    for d in sorted(glob.glob(os.path.join(VERIF, 'seeded', 'C*-w*'))):
         m = json.load(open(os.path.join(d, 'meta.json')))
         caught = [c for c, v in m['detection'].items() if v['exit'] == 1 and v['violation_lines']]
         first = ''
